@@ -583,6 +583,36 @@ func (w *World) V1ProofTxn(id types.FileContractID, fc types.FileContract, windo
 	return types.Transaction{StorageProofs: []types.StorageProof{{ParentID: id, Leaf: leaf, Proof: proof}}}
 }
 
+// V1ProofFee is V1Proof(false) whose transaction also spends a siacoin output entirely as miner fees (a storage proof
+// transaction may carry no outputs, but it may carry inputs and fees).
+func V1ProofFee() Action {
+	return Action{"v1proof+fee", func(bc *BlockCtx) bool {
+		save, nonce := bc.snapshot()
+		n := len(bc.V1)
+		if !V1Proof(false).Do(bc) || len(bc.V1) != n+1 {
+			*bc = save
+			bc.W.Nonce = nonce
+			return false
+		}
+		w := bc.W
+		p, ok := bc.PickSC(func(c int) bool { return c == AddrV1 || c == AddrV1b }, types.Siacoins(1))
+		if !ok {
+			*bc = save
+			bc.W.Nonce = nonce
+			return false
+		}
+		t := &bc.V1[n]
+		c := w.Keys.ClassOf(p.SiacoinOutput.Address)
+		t.SiacoinInputs = []types.SiacoinInput{{ParentID: p.ID, UnlockConditions: w.Keys.StdUC(KeyOf(c))}}
+		t.MinerFees = []types.Currency{p.SiacoinOutput.Value}
+		t.Signatures = nil
+		w.SignV1Whole(t)
+		bc.Used[types.Hash256(p.ID)] = true
+		bc.Names = append(save.Names, "v1proof+fee")
+		return true
+	}}
+}
+
 // V1Proof proves the oldest provable v1 contract (window open, not yet ended unless atEnd).
 func V1Proof(atEnd bool) Action {
 	name := "v1proof"
